@@ -57,6 +57,12 @@ CLAIMED.update({
             "ref/tm.py (cross-checked against a two-stack simulator); <= 5 states"),
 })
 
+CLAIMED.update({
+    "C02": ("each enumerator vs. the matching acceptance test on every word of Sigma^<=n (differential, as stated), length/alphabet predicates, generate_language agreement",
+            "generated objects of the six kinds x bounds n in 0..4 (n = 0, 1 over-weighted) x TM budgets / PDA closure limits; PDA equality only when the reference's closure sizes stay within the limit",
+            "acceptance tests are tied to independent references by C01/C05/C07/C09/C11; ref/pda.py for the closure-size precondition"),
+})
+
 NOT_YET = {
 }
 
